@@ -7,6 +7,7 @@ def main : IO UInt32 :=
     match family with
     | "c12" => C12.check params lines
     | "c12fork" => C01.check params lines
+    | "c12seq" => C01.check params lines
     | "c12nest" => C12.checkNest params lines
     | "c12loop" => C12.checkLoop params lines
     | _ => { bad := [s!"unknown family {family}"] })
